@@ -184,7 +184,7 @@ class C10(Prop):
             k = rng.choice([None, 0, 1, 1, 2, 3])
             fbytes = None if k is None else [rng.choice(alphabet) for _ in range(k)]
             # (a non-text 'reason' attachment on a skip used to make StreamSummary raise: fixed in /repo 08362b3, now generated)
-            mime = rng.choice([None, 0, 3] if binary else [None, 0, 1, 1, 2, 3, 4])
+            mime = rng.choice([None, 0, 3, 11] if binary else [None, 0, 1, 1, 2, 3, 4, 10])
             eof = rng.random() < 0.4
         elif rng.random() < 0.05:
             fbytes = [65]            # bytes without a name: ignored
